@@ -327,3 +327,180 @@ Proof.
         (eapply BDM_core; [|exact HB]); reflexivity.
   - (* transfer *) unfold h_transfer in H. inv_ok H. eapply BDM_transfer; eauto; discriminate.
 Qed.
+
+(* ------------------------------------------------------------------ *)
+(* EndBlock *)
+
+Lemma BDM_expire_req cfg s r : BDM cfg s -> BDM cfg (expire_req cfg s r).
+Proof.
+  intros HB.
+  destruct (core_expire_req cfg s r) as [Ec|(q & rc & _ & _ & _ & Ec)];
+    (eapply BDM_core; [exact Ec|]); [assumption|].
+  unfold expire_settle. destruct (c_super rc); [assumption|].
+  assert (Hsa : BDM cfg (match slash cfg s r with Ok x => x | _ => s end)).
+  { destruct (slash cfg s r) eqn:Es; try assumption. eapply BDM_slash; eauto. }
+  destruct (refund_fee _ r (c_cons rc) (r_fee q)) eqn:Er; [|assumption].
+  eapply BDM_refund_fee; eauto.
+Qed.
+
+Lemma BDM_expire_one cfg s c : BDM cfg s -> BDM cfg (expire_one cfg s c).
+Proof.
+  intros HB. unfold expire_one.
+  set (rc := ctx_or_zero s c).
+  assert (Hp : BDM cfg (fst (if c_bdone rc then (s, rc)
+             else complete_batch (fold_left (expire_req cfg) (active_rids s c (c_counter rc)) s) c rc))).
+  { destruct (c_bdone rc); [assumption|].
+    eapply BDM_core; [apply core_complete_batch|].
+    apply fold_inv; [intros; now apply BDM_expire_req|assumption]. }
+  destruct (if c_bdone rc then (s, rc) else _) as [s1 rc1]. cbn [fst] in Hp.
+  eapply BDM_core; [|exact Hp].
+  rewrite core_clean_batch.
+  destruct (c_state rc1); [| |reflexivity]; try reflexivity.
+  destruct (c_rep rc1 && _); reflexivity.
+Qed.
+
+Lemma BDM_new_one cfg s c : BDM cfg s -> BDM cfg (new_one cfg s c).
+Proof.
+  intros HB. unfold new_one.
+  set (rc := ctx_or_zero s c).
+  destruct (is_state rc Running && c_rep rc && (0 <? c_total rc) && (c_total rc <=? c_counter rc)).
+  { eapply BDM_core; [|exact HB]. reflexivity. }
+  eapply BDM_core; [apply core_del_newq|].
+  destruct (is_state rc Running); [|assumption].
+  destruct ((0 <? len _) && _).
+  - match goal with |- BDM cfg (match ?p with _ => _ end) => destruct p as [sp|] eqn:Ep end.
+    + assert (Hsp : BDM cfg sp).
+      { destruct (c_super rc); [injection Ep as <-; assumption|].
+        destruct (transfer _ _ _ s) eqn:Et; [|discriminate]. injection Ep as <-.
+        apply BDM_emit. eapply BDM_transfer; eauto; discriminate. }
+      eapply BDM_core; [|exact Hsp]. now autorewrite with core.
+    + eapply BDM_core; [apply core_on_paused|assumption].
+  - eapply BDM_core; [apply core_skip_batch|assumption].
+Qed.
+
+Lemma BDM_tick cfg s dt : BDM cfg s -> BDM cfg (set_time (set_height s (height s + 1)) (time s + dt)).
+Proof. intros HB. exact HB. Qed.
+
+Lemma BDM_end_block cfg s dt : BDM cfg s -> BDM cfg (end_block cfg s dt).
+Proof.
+  intros HB. unfold end_block, end_blocker. apply BDM_tick.
+  apply fold_inv; [intros; now apply BDM_new_one|].
+  apply fold_inv; [intros; now apply BDM_expire_one|assumption].
+Qed.
+
+Theorem BDM_step cfg s o : BDM cfg s -> BDM cfg (fst (step cfg s o)).
+Proof.
+  intros HB. unfold step. destruct (handle cfg s o) as [s'| |] eqn:E; cbn [fst]; try assumption.
+  destruct o; try (eapply BDM_msg; [exact E|discriminate|assumption]).
+  cbn [handle] in E. injection E as <-. now apply BDM_end_block.
+Qed.
+
+(* ------------------------------------------------------------------ *)
+(* initial state *)
+
+Definition fund (l : list (Z * Z)) (m : amap Acct Z) : amap Acct Z :=
+  fold_left (fun m af => set (User (fst af)) (get0 (User (fst af)) m + snd af) m) l m.
+
+Lemma fund_ok (l : list (Z * Z)) (m : amap Acct Z) :
+  (forall a v, In (a, v) l -> 0 <= v) -> wf m -> nonneg m -> get0 Deposit m = 0 ->
+  wf (fund l m) /\ nonneg (fund l m)
+  /\ msum vid (fund l m) = msum vid m + fold_right (fun af a => snd af + a) 0 l
+  /\ get0 Deposit (fund l m) = 0.
+Proof.
+  unfold fund. revert m.
+  induction l as [|[a v] t IH]; cbn [fold_left fold_right fst snd]; intros m Hl Hw Hn Hd.
+  - repeat split; try assumption. lia.
+  - assert (Hv : 0 <= v) by (apply (Hl a); now left).
+    pose proof (get0_nonneg (User a) m Hn) as Hg.
+    destruct (IH (set (User a) (get0 (User a) m + v) m)) as (I1 & I2 & I3 & I4).
+    + intros a' v' Hin. apply (Hl a'). now right.
+    + now apply wf_set.
+    + intros x y Hin. apply In_set_inv in Hin; [|assumption].
+      destruct Hin as [[-> ->]|[_ Hin]]; [lia|eauto].
+    + rewrite get0_set. cbn [eqb EqDec_Acct acct_eqb]. assumption.
+    + repeat split; try assumption.
+      rewrite I3, msum_set, fget_vid. unfold vid. lia.
+Qed.
+
+Lemma init_bank_ok (f : list (Z * Z)) : wf_funding f ->
+  wf (fund f []) /\ nonneg (fund f [])
+  /\ msum vid (fund f []) = fold_right (fun af a => snd af + a) 0 f
+  /\ get0 Deposit (fund f []) = 0.
+Proof.
+  intros Hf. destruct (fund_ok f [] Hf) as (G1 & G2 & G3 & G4); try reflexivity.
+  - apply wf_nil.
+  - intros a v [].
+  - repeat split; assumption.
+Qed.
+
+Lemma BDM_init cfg h0 t0 f : wf_funding f -> BDM cfg (init h0 t0 f).
+Proof.
+  intros Hf. destruct (init_bank_ok f Hf) as (G1 & G2 & G3 & G4).
+  unfold BDM, I_bank, I_deposit, I_min, init, bal.
+  cbn [bank supply binds pricing msum]. fold (fund f []).
+  repeat split; try assumption; try apply wf_nil; try (intros ? ? []).
+  now rewrite G3.
+Qed.
+
+(* ------------------------------------------------------------------ *)
+(* the interface of PROOF_GUIDE.md *)
+
+Lemma BDM_bank cfg s : BDM cfg s -> I_bank s.
+Proof. intros H. apply H. Qed.
+Lemma BDM_deposit cfg s : BDM cfg s -> I_deposit s.
+Proof. intros H. apply H. Qed.
+Lemma BDM_I_min cfg s : BDM cfg s -> I_min cfg s.
+Proof. intros H. apply H. Qed.
+
+Definition cfg0 : Params := mkParams 1 1 0 0 0 0 0 0 1.
+
+Lemma I_bank_init h0 t0 f : 1 <= h0 -> 0 <= t0 -> wf_funding f -> I_bank (init h0 t0 f).
+Proof. intros _ _ Hf. exact (BDM_bank cfg0 _ (BDM_init cfg0 h0 t0 f Hf)). Qed.
+Lemma I_deposit_init h0 t0 f : 1 <= h0 -> 0 <= t0 -> wf_funding f -> I_deposit (init h0 t0 f).
+Proof. intros _ _ Hf. exact (BDM_deposit cfg0 _ (BDM_init cfg0 h0 t0 f Hf)). Qed.
+Lemma I_min_init cfg h0 t0 f : 1 <= h0 -> 0 <= t0 -> wf_funding f -> I_min cfg (init h0 t0 f).
+Proof. intros _ _ Hf. exact (BDM_I_min cfg _ (BDM_init cfg h0 t0 f Hf)). Qed.
+
+Lemma BDM_of_msg cfg s o s' : wf_cfg cfg -> Inv cfg s -> wf_op s o -> (forall dt, o <> OEndBlock dt) ->
+  handle cfg s o = Ok s' -> BDM cfg s'.
+Proof. intros _ HI _ Hne H. eapply BDM_msg; eauto. now apply Inv_BDM. Qed.
+
+Lemma I_bank_msg cfg s o s' : wf_cfg cfg -> Inv cfg s -> wf_op s o -> (forall dt, o <> OEndBlock dt) ->
+  handle cfg s o = Ok s' -> I_bank s'.
+Proof. intros. eapply BDM_bank, BDM_of_msg; eauto. Qed.
+Lemma I_deposit_msg cfg s o s' : wf_cfg cfg -> Inv cfg s -> wf_op s o -> (forall dt, o <> OEndBlock dt) ->
+  handle cfg s o = Ok s' -> I_deposit s'.
+Proof. intros. eapply BDM_deposit, BDM_of_msg; eauto. Qed.
+Lemma I_min_msg cfg s o s' : wf_cfg cfg -> Inv cfg s -> wf_op s o -> (forall dt, o <> OEndBlock dt) ->
+  handle cfg s o = Ok s' -> I_min cfg s'.
+Proof. intros. eapply BDM_I_min, BDM_of_msg; eauto. Qed.
+
+Lemma I_bank_expire_one cfg s c : wf_cfg cfg -> Inv cfg s -> In (height s, c) (expq s) ->
+  height s < HEIGHT_BOUND -> I_bank (expire_one cfg s c).
+Proof. intros _ HI _ _. eapply BDM_bank, BDM_expire_one, Inv_BDM, HI. Qed.
+Lemma I_deposit_expire_one cfg s c : wf_cfg cfg -> Inv cfg s -> In (height s, c) (expq s) ->
+  height s < HEIGHT_BOUND -> I_deposit (expire_one cfg s c).
+Proof. intros _ HI _ _. eapply BDM_deposit, BDM_expire_one, Inv_BDM, HI. Qed.
+Lemma I_min_expire_one cfg s c : wf_cfg cfg -> Inv cfg s -> In (height s, c) (expq s) ->
+  height s < HEIGHT_BOUND -> I_min cfg (expire_one cfg s c).
+Proof. intros _ HI _ _. eapply BDM_I_min, BDM_expire_one, Inv_BDM, HI. Qed.
+
+Lemma I_bank_new_one cfg s c : wf_cfg cfg -> Inv cfg s -> In (height s, c) (newq s) ->
+  height s < HEIGHT_BOUND -> I_bank (new_one cfg s c).
+Proof. intros _ HI _ _. eapply BDM_bank, BDM_new_one, Inv_BDM, HI. Qed.
+Lemma I_deposit_new_one cfg s c : wf_cfg cfg -> Inv cfg s -> In (height s, c) (newq s) ->
+  height s < HEIGHT_BOUND -> I_deposit (new_one cfg s c).
+Proof. intros _ HI _ _. eapply BDM_deposit, BDM_new_one, Inv_BDM, HI. Qed.
+Lemma I_min_new_one cfg s c : wf_cfg cfg -> Inv cfg s -> In (height s, c) (newq s) ->
+  height s < HEIGHT_BOUND -> I_min cfg (new_one cfg s c).
+Proof. intros _ HI _ _. eapply BDM_I_min, BDM_new_one, Inv_BDM, HI. Qed.
+
+Lemma I_bank_tick s dt : I_bank s -> 0 <= dt ->
+  I_bank (set_time (set_height s (height s + 1)) (time s + dt)).
+Proof. intros H _. exact H. Qed.
+Lemma I_deposit_tick s dt : I_deposit s -> 0 <= dt ->
+  I_deposit (set_time (set_height s (height s + 1)) (time s + dt)).
+Proof. intros H _. exact H. Qed.
+Lemma I_min_tick cfg s dt : I_min cfg s -> 0 <= dt ->
+  I_min cfg (set_time (set_height s (height s + 1)) (time s + dt)).
+Proof. intros H _. exact H. Qed.
